@@ -35,7 +35,7 @@ prop("C10",
                   "residual tolerance 1e-12*that cond*|z|, worst measured 4.4e-16)"],
      title="Levinson and the Toeplitz/Hermitian solvers solve their equations")
 
-R0S = [1.0, 0.1, 10.0, 3.7, 1e-3, 1e4]
+R0S = [1.0, 0.1, 10.0, 3.7, 1e-3, 1e4, 1e-9, 1e6]     # the zero lag in any unit
 
 
 # ----------------------------------------------------------------------------
@@ -580,6 +580,15 @@ MARGINS = [0.01, 0.1, 0.5, 1.0, 3.0]
 
 @st.composite
 def toeplitz_case(draw, phase):
+    case = draw(_toeplitz_case0(phase))
+    # the system in any unit: matrix entries and right-hand side scaled independently (conditioning unchanged)
+    case["units"] = draw(st.sampled_from([1.0, 1.0, 1.0, 1e-9, 1e-12, 1e6]))
+    case["z_units"] = draw(st.sampled_from([1.0, 1.0, 1e-6, 1e5]))
+    return case
+
+
+@st.composite
+def _toeplitz_case0(draw, phase):
     cplx = draw(st.booleans())
     M = draw(st.one_of(st.integers(1, 39), st.integers(1, 8)))
     dt = "complex" if cplx else "real"
@@ -668,8 +677,13 @@ def _toeplitz_body(ctx, case):
             t0 = complex(mag * np.exp(1j * ph)) if ph else mag
         T = _gtoep(t0, tc, tr)
         c = _cond(T)
+    u, zu = case.get("units", 1.0), case.get("z_units", 1.0)
+    if u != 1.0:
+        t0, tc, tr, T = t0 * u, tc * u, tr * u, T * u
+    if zu != 1.0:
+        z = z * zu
     ctx.cls("T complex" if case["complex"] else "T real", "z " + gen.describe(case["z"]), "fam=" + case["fam"], _bucket(M), _cbucket(c),
-            "form=" + case["form"],
+            "form=" + case["form"], "units=%g" % u,
             "t0>0" if (np.imag(t0) == 0 and np.real(t0) > 0) else ("t0<0" if np.imag(t0) == 0 else ("Re t0>0" if np.real(t0) > 0 else "Re t0<=0")))
     ctx.nontrivial(M >= 2 and bool(np.any(tc != 0) or np.any(tr != 0)) and bool(np.any(z != 0)))
     ctx.sig_on_exception = {"t0": "Re<=0" if np.real(t0) <= 0 else "Re>0"}
